@@ -13,7 +13,7 @@ QUAL = "Circuit.remove_unloaded"
 
 def task(ctx):
     fn, seg, sha = engine.find_function(F, QUAL)
-    info = {"function": f"{F}::{QUAL}", "sha256": sha, "lines": [fn.lineno, fn.end_lineno], "variants": ["inputs: symbolic bool"]}
+    info = {"function": f"{F}::{QUAL}", "sha256": sha, "lines": engine.abs_lines(fn), "variants": ["inputs: symbolic bool"]}
     T = ctx.tval
     st0 = State({}, {}, [])
     holder = {}
